@@ -67,6 +67,15 @@ def vectors(ctx):
                 xs.append(("f32", sgn * float(dn)))
             up = np.nextafter(up, np.float32(100.0))
             dn = np.nextafter(dn, np.float32(-100.0))
+    # log-dense neighbourhoods of the special latitudes (100 points per decade from 1e-12 to 1e-2 degree off 0, +-87, +-90):
+    # a tolerance or a guard written in the wrong unit shows up as a narrow band next to one of them
+    for j in range(0, 1001):
+        d = 10.0 ** (-12 + j / 100.0)
+        for sgn in (1, -1):
+            xs.append(("log0", sgn * d))
+            xs.append(("log87", sgn * (87.0 - d)))
+            xs.append(("log87", sgn * (87.0 + d)))
+            xs.append(("log90", sgn * (90.0 - d)))
     for c in (0.0, 87.0, 90.0):
         for sgn in (1, -1):
             x = sgn * c
